@@ -67,7 +67,9 @@ theorem flat_mem_progOf (progs : List (List Op)) (p : Pkt) (hp : p ∈ progs.fla
   obtain ⟨i, hi, rfl⟩ := List.getElem_of_mem hl
   refine ⟨i + 1, ?_⟩
   have : progs.getD i [] = progs[i] := by simp [List.getD, hi]
-  simp [progOf, this, hpl]
+  unfold progOf
+  have h0 : ¬ (i + 1 = 0) := by omega
+  rw [if_neg h0, Nat.add_sub_cancel, this]; exact hpl
 
 theorem init_inv (progs : List (List Op)) (hnd : (progs.flatMap pktsOf).Nodup) :
     WInv progs (init progs) := by
@@ -146,8 +148,8 @@ theorem fifo_aux (progs : List (List Op)) (s : Sys) (h : WInv progs s) (t : Tid)
     intro hmem
     exact hfresh q (by simp only [pktsOf, List.mem_flatMap]; exact ⟨_, hmem, by simp [Op.pkts]⟩) hqi
   have h2 : [p, q].Sublist (queuedPkts done) := by
-    have := hdone.filterMap (fun op => match op with | Op.queued p => some p | _ => none)
-    simpa [queuedPkts] using this
+    have := hdone.filterMap Op.queuedPkt
+    simpa [queuedPkts, Op.queuedPkt] using this
   have h3 : [p, q].Sublist (sentPkts s.wire ++ ((cur s).popped ++ s.queue)) := by
     have := h2.trans hd2; simpa [pipeline] using this
   apply sublist_pair_left _ _ _ _ h3
@@ -201,9 +203,10 @@ theorem dctx_set (cfg : Cfg) (s s' : Sys) (t : Tid) (imm : Bool) (rest : List Op
   simp only [stepUser, afterFlush, afterSti] at hs
   split at hs
   · simp only [Option.some.injEq] at hs; subst hs
-    simp only [upd, if_pos]
-    refine ⟨?_, rfl⟩
-    split <;> (try split) <;> (try split) <;> simp [Pc.dctx]
+    constructor
+    · simp only [upd, if_pos]
+      split <;> (try split) <;> (try split) <;> simp [Pc.dctx]
+    · simp [upd]
   · cases hs
 
 theorem dctx_stable (cfg : Cfg) (s s' : Sys) (t u : Tid) (c : DCtx)
